@@ -67,6 +67,17 @@ func simpleRun(scen func(*Tape) *Scenario, arm func(*Sim)) func(*Tape, bool) *Ru
 	}
 }
 
+// mixRun makes one run in k a run of the first kind (drawn from the tape, so a replay
+// takes the same branch).
+func mixRun(k uint64, special, normal func(*Tape, bool) *RunResult) func(*Tape, bool) *RunResult {
+	return func(t *Tape, record bool) *RunResult {
+		if t.Chance(SScen, 1, k) {
+			return special(t, record)
+		}
+		return normal(t, record)
+	}
+}
+
 // ---------------------------------------------------------------- replay files
 
 type ReplayFile struct {
